@@ -247,11 +247,11 @@ func genHistory(rng *vh.Rng) history {
 		case 9, 10:
 			o := op{Kind: "show"}
 			if rng.Chance(2, 3) {
-				l := rng.PickI([]int{0, 1, 2, 3, 5, 100})
+				l := rng.PickI([]int{0, 1, 2, 3, 5, 100, 2147483647, 2147483648, 9223372036854775806, 9223372036854775807})
 				o.Limit = &l
 			}
 			if rng.Chance(2, 3) {
-				f := rng.PickI([]int{0, 1, 2, 3, 7})
+				f := rng.PickI([]int{0, 1, 2, 3, 7, 1, 2, 2147483647, 9223372036854775807})
 				o.Offset = &f
 			}
 			h.Ops = append(h.Ops, o)
@@ -463,7 +463,7 @@ func runHistory(h history, sec *vh.Section) (lines, impls []string) {
 				lim = *o.Limit
 			}
 			want := []string{}
-			for i := off; i < len(all) && len(want) < lim; i++ {
+			for i := off; i >= 0 && i < len(all) && len(want) < lim; i++ {
 				want = append(want, all[i])
 			}
 			if total != len(all) || strings.Join(names, "\x00") != strings.Join(want, "\x00") {
@@ -500,9 +500,9 @@ func runHistory(h history, sec *vh.Section) (lines, impls []string) {
 func sectionHistory(rng *vh.Rng) {
 	sec := res.Section("history", "system-correspondence",
 		"random histories of 4..18 operations (create via pipe.Service and via CREATE PIPE, ensure via the RPC Pipes API, delete, get, DESCRIBE PIPE, SHOW PIPES with OFFSET/LIMIT, clean restart) over pools of 2..6 names, one eighth of the conditions unparsable; every answer compared with the Lean registry model and with a Go map; non-trivial = at least 4 operations, distinct by operation list")
-	n := 60
+	n := 300
 	if args.Thorough {
-		n = 1500
+		n = 3000
 	}
 	var hs []history
 	for _, f := range vh.CorpusFiles(args.Corpus) {
@@ -578,6 +578,25 @@ func sectionPaging(rng *vh.Rng) {
 			srv.Pipes.CreatePipe(pipe.Pipe{Name: identNames[p[j]]})
 		}
 		want := sortedCopy(names)
+		// one-page walks with extreme limits: the page from offset o with a limit no smaller than the list is its tail
+		for _, o := range []int{0, 1, 2, k} {
+			for _, lim := range []int{2147483647, 2147483648, 9223372036854775806, 9223372036854775807} {
+				out, err := srv.Exec(fmt.Sprintf("show pipes offset %d limit %d", o, lim))
+				var ns []string
+				if err == nil {
+					_, ns = parseShow(out)
+				}
+				w := []string{}
+				if o < len(want) {
+					w = want[o:]
+				}
+				res.Eval(sec, "")
+				if err != nil || strings.Join(ns, "\x00") != strings.Join(w, "\x00") {
+					res.SpecFail(vh.SpecFailure{Section: "paging", Kind: "listing-not-sorted-or-incomplete", Input: map[string]interface{}{"names": names, "offset": o, "limit": lim},
+						Impl: fmt.Sprintf("%q %v", ns, err), Spec: fmt.Sprintf("%q", w), What: "SHOW PIPES with a limit no smaller than the list must return the list's tail from the offset"})
+				}
+			}
+		}
 		for _, ps := range []int{1, 2, 3, 4, k + 1} {
 			var got []string
 			pages := 0
@@ -752,6 +771,191 @@ func replay(path string) {
 	res.Write(args.Out)
 }
 
+// sectionEnsureRace: K callers ensure one fresh name with the SAME definition, some of them racing a plain create. Ensure is
+// idempotent, so every ensure must return the pipe (the loser of the creation race finds it on its next attempt); callers are
+// parked between CreatePipe's two critical sections so that all of them pass the first check before anyone stores.
+func sectionEnsureRace(rng *vh.Rng) {
+	sec := res.Section("ensure-race", "spec-search",
+		"K=2..4 callers EnsurePipe one fresh name with the same definition (optionally one of them uses CreatePipe), parked at the hook between CreatePipe's critical sections and released in a generated order, or free-running; every ensure must succeed and return that definition, the registry must hold exactly it. non-trivial = every case")
+	srv, err := lrsrv.Start(lrsrv.NewDir(), lrsrv.Opts{NoRPC: true})
+	if err != nil {
+		res.Fatal(args.Out, "ensure-race: %v", err)
+	}
+	defer func() { srv.Stop(); os.RemoveAll(srv.Dir) }()
+	n := 60
+	if args.Thorough {
+		n = 600
+	}
+	for c := 0; c < n; c++ {
+		k := rng.Range(2, 4)
+		name := fmt.Sprintf("ens%d", c)
+		def := pipe.Pipe{Name: name, TagsCond: "a=1", FltCond: "msg contains \"x\""}
+		withCreate := rng.Chance(1, 3)
+		parked := c%2 == 0 && verifhook.Enabled
+		gates := make([]chan struct{}, k)
+		arrived := make(chan int, 4*k)
+		var cur int
+		var curMu sync.Mutex
+		var parkedOnce sync.Map
+		if parked {
+			verifhook.Set("pipe.create.betweenChecks", func() {
+				curMu.Lock()
+				me := cur
+				curMu.Unlock()
+				if _, dup := parkedOnce.LoadOrStore(me, true); dup {
+					return // a later attempt of the same caller is not parked again
+				}
+				arrived <- me
+				<-gates[me]
+			})
+		}
+		errs := make([]error, k)
+		descs := make([]pipe.PipeDesc, k)
+		var wg sync.WaitGroup
+		for i := 0; i < k; i++ {
+			gates[i] = make(chan struct{})
+			wg.Add(1)
+			if parked {
+				curMu.Lock()
+				cur = i
+				curMu.Unlock()
+			}
+			go func(i int) {
+				defer wg.Done()
+				if withCreate && i == 0 {
+					descs[i], errs[i] = srv.Pipes.CreatePipe(def)
+				} else {
+					descs[i], errs[i] = srv.Pipes.EnsurePipe(def)
+				}
+			}(i)
+			if parked {
+				select {
+				case <-arrived:
+				case <-time.After(2 * time.Second):
+					res.Note("ensure-race: caller %d did not reach the hook", i)
+				}
+			}
+		}
+		order := rng.Perm(k)
+		if parked {
+			for _, i := range order {
+				close(gates[i])
+				time.Sleep(200 * time.Microsecond)
+			}
+		}
+		wg.Wait()
+		verifhook.Set("pipe.create.betweenChecks", nil)
+		res.Eval(sec, fmt.Sprint(k, parked, withCreate, order))
+		res.Dist(sec, fmt.Sprintf("parked=%v create=%v k=%d", parked, withCreate, k))
+		in := map[string]interface{}{"callers": k, "parked": parked, "first_caller_creates": withCreate, "release_order": order}
+		d, gerr := srv.Pipes.GetPipe(name)
+		bad := ""
+		for i := 0; i < k; i++ {
+			if withCreate && i == 0 {
+				continue // the plain create may lose the race: "already exists" is a correct answer for it
+			}
+			if errs[i] != nil {
+				bad = fmt.Sprintf("ensure caller %d failed: %v", i, errs[i])
+			} else if descs[i].Pipe != def {
+				bad = fmt.Sprintf("ensure caller %d got %v", i, descs[i].Pipe)
+			}
+		}
+		if gerr != nil || d.Pipe != def {
+			bad = fmt.Sprintf("registry holds %v (%v)", d.Pipe, gerr)
+		}
+		if bad != "" {
+			res.SpecFail(vh.SpecFailure{Section: "ensure-race", Kind: "ensure-not-idempotent-under-race", Input: in, Impl: bad,
+				Spec: "every ensure returns the pipe with the common definition", What: "concurrent ensures of one fresh name with the same definition must all succeed"})
+		}
+		srv.Pipes.DeletePipe(name)
+	}
+	res.Done(sec)
+}
+
+// sectionRestart: the registry must be exactly what it was across clean restarts, in particular after deletions
+// (also of ALL pipes) made in a later session.
+func sectionRestart(rng *vh.Rng) {
+	sec := res.Section("restart", "spec-search",
+		"2..3 server sessions on one base directory: session 1 creates 1..5 pipes, each later session deletes a generated subset (one case in three: all) and may create others; after every clean stop and restart SHOW PIPES / GetPipe must report exactly the surviving definitions. non-trivial = every case")
+	n := 24
+	if args.Thorough {
+		n = 200
+	}
+	var wg sync.WaitGroup
+	sem := make(chan struct{}, 6)
+	for c := 0; c < n; c++ {
+		r := rng.Fork(fmt.Sprint("restart", c))
+		wg.Add(1)
+		sem <- struct{}{}
+		go func(c int, r *vh.Rng) {
+			defer wg.Done()
+			defer func() { <-sem }()
+			dir := lrsrv.NewDir()
+			defer os.RemoveAll(dir)
+			spec := map[string]pipe.Pipe{}
+			sessions := r.Range(2, 3)
+			var trace []string
+			for s := 0; s <= sessions; s++ {
+				srv, err := lrsrv.Start(dir, lrsrv.Opts{NoRPC: true})
+				if err != nil {
+					res.SpecFail(vh.SpecFailure{Section: "restart", Kind: "restart-refused", Input: trace, Impl: err.Error(), Spec: "starts", What: "the server must start again after a clean stop"})
+					return
+				}
+				// compare
+				got := srv.Pipes.GetPipes()
+				ok := len(got) == len(spec)
+				for _, g := range got {
+					if w, in := spec[g.Name]; !in || w != g {
+						ok = false
+					}
+				}
+				if !ok {
+					res.SpecFail(vh.SpecFailure{Section: "restart", Kind: "registry-changed-on-restart", Input: trace, Impl: fmt.Sprint(got), Spec: fmt.Sprint(spec),
+						What: "the registry after a clean restart is not the registry before the stop"})
+					srv.Stop()
+					return
+				}
+				if s == sessions {
+					srv.Stop()
+					break
+				}
+				if s == 0 {
+					for i := 0; i < r.Range(1, 5); i++ {
+						p := pipe.Pipe{Name: r.PickS(identNames), TagsCond: r.PickS(tagConds), FltCond: r.PickS(fltConds)}
+						if _, err := srv.Pipes.CreatePipe(p); err == nil {
+							spec[p.Name] = p
+							trace = append(trace, "create "+p.Name)
+						}
+					}
+				} else {
+					all := r.Chance(1, 3)
+					for n := range spec {
+						if all || r.Bool() {
+							if srv.Pipes.DeletePipe(n) == nil {
+								delete(spec, n)
+								trace = append(trace, "delete "+n)
+							}
+						}
+					}
+					if !all && r.Bool() {
+						p := pipe.Pipe{Name: r.PickS(identNames), TagsCond: r.PickS(tagConds)}
+						if _, err := srv.Pipes.CreatePipe(p); err == nil {
+							spec[p.Name] = p
+							trace = append(trace, "create "+p.Name)
+						}
+					}
+				}
+				time.Sleep(5 * time.Millisecond) // let the asynchronous part of a delete finish
+				srv.Stop()
+				trace = append(trace, "restart")
+			}
+			res.Eval(sec, fmt.Sprint(trace))
+		}(c, r)
+	}
+	wg.Wait()
+	res.Done(sec)
+}
+
 func main() {
 	args = vh.ParseArgs()
 	res = vh.NewResult("C19", args)
@@ -767,5 +971,7 @@ func main() {
 	sectionHistory(rng.Fork("history"))
 	sectionPaging(rng.Fork("paging"))
 	sectionRace(rng.Fork("race"))
+	sectionEnsureRace(rng.Fork("ensure-race"))
+	sectionRestart(rng.Fork("restart"))
 	res.Write(args.Out)
 }
